@@ -184,4 +184,277 @@ theorem uri_pass {o : UrlOpaque} (laws : HostLaws o) {p : Parts} (b : PartsBase 
     exact q1 (kept_mem_unquotePartial kt.2.1 ⟨by decide, by decide, by decide, by decide⟩ w hm)
   · exact unquote_noTab kt.2.2.1 keep_low.2.2.1 ui.fragment.1 ui.fragment.2
 
+/-! ### URL text theorems -/
+
+theorem partsOf_userinfo {conv : Str → Option Str} {sp : Split} {p : Parts} (h : partsOf conv sp = .ok p) :
+    p.username = (userinfo sp.netloc).1 ∧ p.password = (userinfo sp.netloc).2 := by
+  unfold partsOf at h
+  simp only at h
+  generalize (if (hostinfo sp.netloc).1.isEmpty = true then (Except.ok [] : Except String Str)
+    else match conv (hostinfo sp.netloc).1 with
+      | some h => Except.ok h
+      | none => Except.error "UnicodeError") = hx at h
+  cases hx with
+  | error e => simp at h
+  | ok hh =>
+    simp only at h
+    cases hp : portOf sp.netloc with
+    | error e => simp [hp] at h
+    | ok port =>
+      simp only [hp, Except.ok.injEq] at h
+      subst h
+      exact ⟨rfl, rfl⟩
+
+/-- a URL of the grammar whose text components are in the `%XX` grammar and whose userinfo has no
+raw delimiter -/
+structure InGrammarU (o : UrlOpaque) (url : Str) (sp : Split) : Prop where
+  split : urlsplit o url = .ok sp
+  scheme : sp.scheme ≠ []
+  host : (hostinfo sp.netloc).1 ≠ []
+  user : ∀ u, truthy (userinfo sp.netloc).1 = some u → wellFormed u = true ∧ ∀ c ∈ u, plainChar c = true
+  pass : ∀ pw, truthy (userinfo sp.netloc).2 = some pw → wellFormed pw = true ∧ ∀ c ∈ pw, plainChar c = true
+  path : wellFormed sp.path = true
+  query : wellFormed sp.query = true
+  fragment : wellFormed sp.fragment = true
+
+theorem base_of_split {o : UrlOpaque} {url : Str} {sp : Split} (g : InGrammarU o url sp)
+    {conv : Str → Option Str} {p : Parts} (hp : partsOf conv sp = .ok p)
+    (hchars : ∀ h r, conv h = some r → r ≠ [] ∧ ∀ c ∈ r, hostChar c = true) :
+    PartsBase p ∧ UriInput p ∧ conv (hostinfo sp.netloc).1 = some p.host := by
+  have shape := urlsplit_shape g.split
+  obtain ⟨e1, e2, e3, e4, hconv, hport⟩ := partsOf_spec hp g.host
+  obtain ⟨u1, u2⟩ := partsOf_userinfo hp
+  obtain ⟨hne, hc⟩ := hchars _ _ hconv
+  have hnetne : sp.netloc ≠ [] := by
+    intro e; apply g.host; rw [e]; rfl
+  refine ⟨⟨?_, hne, hc, hport, ?_⟩, ⟨?_, ?_, ?_, ?_, ?_⟩, hconv⟩
+  · rw [e1]
+    rcases shape.scheme with h | h
+    · exact absurd h g.scheme
+    · exact ⟨h.1, h.2, shape.tabs.1⟩
+  · rw [e2]; exact shape.path_form hnetne
+  · rw [u1]; exact g.user
+  · rw [u2]; exact g.pass
+  · rw [e2]; exact ⟨g.path, shape.path_chars.1, shape.path_chars.2, shape.tabs.2.2.1⟩
+  · rw [e3]; exact ⟨g.query, shape.query_chars, shape.tabs.2.2.2.1⟩
+  · rw [e4]; exact ⟨g.fragment, shape.tabs.2.2.2.2⟩
+
+theorem uriToIriText_unfold (o : UrlOpaque) (url : Str) :
+    uriToIriText o url =
+      (match urlsplit o url with
+       | .error e => .error e
+       | .ok sp =>
+         match partsOf o.hostToUnicode sp with
+         | .error e => .error e
+         | .ok p => .ok (urlunsplit (uriConv.apply p))) := rfl
+
+/-- **`uri_to_iri` is a fixpoint after one step on URL text.** -/
+theorem uriToIriText_fix {o : UrlOpaque} (laws : HostLaws o)
+    (kt : KeepOK Gen.UrlTables.keepPath ∧ KeepOK Gen.UrlTables.keepQuery ∧
+      KeepOK Gen.UrlTables.keepFragment ∧ KeepOK Gen.UrlTables.keepUser)
+    {url r : Str} {sp : Split} (g : InGrammarU o url sp) (h : uriToIriText o url = .ok r) :
+    uriToIriText o r = .ok r := by
+  rw [uriToIriText_unfold, g.split] at h
+  simp only at h
+  cases hp : partsOf o.hostToUnicode sp with
+  | error e => rw [hp] at h; cases h
+  | ok p =>
+    rw [hp] at h
+    simp only [Except.ok.injEq] at h
+    subst h
+    obtain ⟨b, ui, hconv⟩ := base_of_split g hp laws.u_chars
+    obtain ⟨np, gs⟩ := uri_pass laws b ui (laws.bracket_u _ _ hconv) kt
+    obtain ⟨h1, h2⟩ := pass_reparse gs np (laws.u_fixed _ _ hconv)
+    rw [uriToIriText_unfold, h1]
+    simp only [h2]
+    rw [apply_reparsed (F := uriConv)
+      (fun u hu => ⟨unquotePartial_ne (truthy_ne hu), unquotePartial_fix kt.2.2.2 u (ui.user u hu).1⟩)
+      (fun pw hpw => ⟨unquotePartial_ne (truthy_ne hpw), unquotePartial_fix kt.2.2.2 pw (ui.pass pw hpw).1⟩)
+      (unquotePartial_fix kt.1 _ ui.path.1) (unquotePartial_fix kt.2.1 _ ui.query.1)
+      (unquotePartial_fix kt.2.2.1 _ ui.fragment.1)]
+
+/-! ### IRI → URI → IRI on URL text -/
+
+theorem base_reparsed {F : Conv} {p : Parts} (b : PartsBase p) {h' : Str}
+    (hh : h' ≠ [] ∧ ∀ c ∈ h', hostChar c = true)
+    (hform : ∀ s : Str, (s = [] ∨ s.head? = some '/') → (F.fpath s = [] ∨ (F.fpath s).head? = some '/')) :
+    PartsBase (reparsed F p h') := by
+  refine ⟨b.scheme, hh.1, hh.2, ?_, hform _ b.path_form⟩
+  intro k hk
+  simp only [reparsed] at hk
+  cases hp : p.port with
+  | none => simp [hp] at hk
+  | some j =>
+    cases j with
+    | zero => simp [hp] at hk
+    | succ j => simp only [hp, Option.some.injEq] at hk; rw [← hk]; exact b.port _ hp
+
+theorem quote_form (s : Str) (h : s = [] ∨ s.head? = some '/') :
+    quote Gen.UrlTables.iriPathSafe s = [] ∨ (quote Gen.UrlTables.iriPathSafe s).head? = some '/' := by
+  rcases h with h | h
+  · left; rw [h]; rfl
+  · right
+    cases hs : s with
+    | nil => rw [hs] at h; cases h
+    | cons x xs =>
+      rw [hs] at h
+      simp at h
+      subst h
+      rw [quote_cons_fixed (show Fixed Gen.UrlTables.iriPathSafe '/' from ⟨by decide, by decide⟩)]
+      rfl
+
+theorem unquote_form (s : Str) (h : s = [] ∨ s.head? = some '/') :
+    unquotePartial Gen.UrlTables.keepPath s = [] ∨ (unquotePartial Gen.UrlTables.keepPath s).head? = some '/' := by
+  rcases h with h | h
+  · left; rw [h]; rfl
+  · right
+    cases hs : s with
+    | nil => rw [hs] at h; cases h
+    | cons x xs =>
+      rw [hs] at h
+      simp at h
+      subst h
+      rw [unquotePartial_slash]
+      rfl
+
+/-- the parts read back after an `iri_to_uri` pass are fit for `uri_to_iri` -/
+theorem uriInput_after_iri {p : Parts} (ui : UriInput p) (h' : Str) : UriInput (reparsed iriConv p h') := by
+  have hpU : Gen.UrlTables.iriUserSafe.contains '%' = true := by decide
+  have hpP : Gen.UrlTables.iriPasswordSafe.contains '%' = true := by decide
+  have hpF : Gen.UrlTables.iriPathSafe.contains '%' = true := by decide
+  have hqF : Gen.UrlTables.iriQuerySafe.contains '%' = true := by decide
+  have hfF : Gen.UrlTables.iriFragmentSafe.contains '%' = true := by decide
+  refine ⟨?_, ?_, ?_, ?_, ?_⟩
+  · intro u hu
+    simp only [reparsed] at hu
+    cases hx : truthy p.username with
+    | none => rw [hx] at hu; simp [truthy] at hu
+    | some v =>
+      have hq : quote Gen.UrlTables.iriUserSafe v ≠ [] := quote_ne (truthy_ne hx)
+      simp only [hx, Option.map_some, iriConv, truthy_some_ne hq, Option.some.injEq] at hu
+      subst hu
+      exact ⟨wellFormed_quote hpU v (ui.user v hx).1, fun c hc =>
+        fixed_transfer (P := fun c => plainChar c = true) (fun n hn h => (safe_user_plain n hn).1 h)
+          (quote_fixed hpU v c hc)⟩
+  · intro pw hpw
+    simp only [reparsed] at hpw
+    cases hx : truthy p.username with
+    | none => rw [hx] at hpw; simp [truthy] at hpw
+    | some v =>
+      simp only [hx] at hpw
+      cases hy : truthy p.password with
+      | none => rw [hy] at hpw; simp [truthy] at hpw
+      | some w =>
+        have hq : quote Gen.UrlTables.iriPasswordSafe w ≠ [] := quote_ne (truthy_ne hy)
+        simp only [hy, Option.map_some, iriConv, truthy_some_ne hq, Option.some.injEq] at hpw
+        subst hpw
+        exact ⟨wellFormed_quote hpP w (ui.pass w hy).1, fun c hc =>
+          fixed_transfer (P := fun c => plainChar c = true) (fun n hn h => (safe_user_plain n hn).2 h)
+            (quote_fixed hpP w c hc)⟩
+  · refine ⟨wellFormed_quote hpF _ ui.path.1, ?_, ?_, fixed_noDelims (fun n hn h => (safe_path_ok n hn h).2.2) hpF⟩
+    · intro hm
+      exact (fixed_transfer (P := fun c => c ≠ '?' ∧ c ≠ '#' ∧ isTabCrLf c = false) safe_path_ok
+        (quote_fixed hpF p.path _ hm)).1 rfl
+    · intro hm
+      exact (fixed_transfer (P := fun c => c ≠ '?' ∧ c ≠ '#' ∧ isTabCrLf c = false) safe_path_ok
+        (quote_fixed hpF p.path _ hm)).2.1 rfl
+  · refine ⟨wellFormed_quote hqF _ ui.query.1, ?_, fixed_noDelims (fun n hn h => (safe_query_ok n hn h).2) hqF⟩
+    intro hm
+    exact (fixed_transfer (P := fun c => c ≠ '#' ∧ isTabCrLf c = false) safe_query_ok
+      (quote_fixed hqF p.query _ hm)).1 rfl
+  · exact ⟨wellFormed_quote hfF _ ui.fragment.1, fixed_noDelims safe_frag_ok hfF⟩
+
+/-- component law of the round trip, for a text `s` of the `%XX` grammar -/
+theorem uqu {safe : Str} {keep : List Bool} (hp : safe.contains '%' = true) (hk : KeepOK keep) {s : Str}
+    (hs : wellFormed s = true) :
+    unquotePartial keep (quote safe (unquotePartial keep (quote safe s))) = unquotePartial keep (quote safe s) :=
+  unquotePartial_quote_stable hp hk _ (wellFormed_quote hp s hs) (quote_fixed hp s)
+
+/-- the tuple after four passes equals the tuple after two -/
+theorem roundtrip_apply {p : Parts} (ui : UriInput p) {h2 a3 : Str}
+    (kt : KeepOK Gen.UrlTables.keepPath ∧ KeepOK Gen.UrlTables.keepQuery ∧
+      KeepOK Gen.UrlTables.keepFragment ∧ KeepOK Gen.UrlTables.keepUser) :
+    uriConv.apply (reparsed iriConv (reparsed uriConv (reparsed iriConv p h2) a3) h2)
+      = uriConv.apply (reparsed iriConv p h2) := by
+  have hpU : Gen.UrlTables.iriUserSafe.contains '%' = true := by decide
+  have hpP : Gen.UrlTables.iriPasswordSafe.contains '%' = true := by decide
+  unfold Conv.apply
+  have hnet : netloc uriConv.fu uriConv.fp (reparsed iriConv (reparsed uriConv (reparsed iriConv p h2) a3) h2)
+      = netloc uriConv.fu uriConv.fp (reparsed iriConv p h2) := by
+    rw [netloc_eq, netloc_eq]
+    have hport : portText (reparsed iriConv (reparsed uriConv (reparsed iriConv p h2) a3) h2).port
+        = portText (reparsed iriConv p h2).port := by
+      simp only [reparsed]
+      cases p.port with
+      | none => rfl
+      | some k => cases k <;> rfl
+    rw [hport]
+    congr 1
+    unfold authText
+    simp only [reparsed, iriConv, uriConv]
+    cases hx : truthy p.username with
+    | none => simp [truthy]
+    | some u =>
+      have q1 : quote Gen.UrlTables.iriUserSafe u ≠ [] := quote_ne (truthy_ne hx)
+      have q2 : unquotePartial Gen.UrlTables.keepUser (quote Gen.UrlTables.iriUserSafe u) ≠ [] :=
+        unquotePartial_ne q1
+      have q3 : quote Gen.UrlTables.iriUserSafe
+          (unquotePartial Gen.UrlTables.keepUser (quote Gen.UrlTables.iriUserSafe u)) ≠ [] := quote_ne q2
+      simp only [Option.map_some, truthy_some_ne q1, truthy_some_ne q2, truthy_some_ne q3,
+        uqu hpU kt.2.2.2 (ui.user u hx).1]
+      cases hy : truthy p.password with
+      | none => simp [truthy]
+      | some pw =>
+        have r1 : quote Gen.UrlTables.iriPasswordSafe pw ≠ [] := quote_ne (truthy_ne hy)
+        have r2 : unquotePartial Gen.UrlTables.keepUser (quote Gen.UrlTables.iriPasswordSafe pw) ≠ [] :=
+          unquotePartial_ne r1
+        have r3 : quote Gen.UrlTables.iriPasswordSafe
+            (unquotePartial Gen.UrlTables.keepUser (quote Gen.UrlTables.iriPasswordSafe pw)) ≠ [] := quote_ne r2
+        simp only [Option.map_some, truthy_some_ne r1, truthy_some_ne r2, truthy_some_ne r3,
+          uqu hpP kt.2.2.2 (ui.pass pw hy).1]
+  rw [hnet]
+  have e1 := uqu (safe := Gen.UrlTables.iriPathSafe) (by decide) kt.1 ui.path.1
+  have e2 := uqu (safe := Gen.UrlTables.iriQuerySafe) (by decide) kt.2.1 ui.query.1
+  have e3 := uqu (safe := Gen.UrlTables.iriFragmentSafe) (by decide) kt.2.2.1 ui.fragment.1
+  simp only [reparsed, iriConv, uriConv, e1, e2, e3]
+
+/-- **IRI → URI → IRI is stable after one round, on URL text**: with `n` the normalised IRI
+`uri_to_iri(iri_to_uri(url))`, converting `n` to a URI and back gives `n` again. -/
+theorem iri_uri_iri_text {o : UrlOpaque} (laws : HostLaws o)
+    (kt : KeepOK Gen.UrlTables.keepPath ∧ KeepOK Gen.UrlTables.keepQuery ∧
+      KeepOK Gen.UrlTables.keepFragment ∧ KeepOK Gen.UrlTables.keepUser)
+    {url u1 : Str} {sp : Split} (g : InGrammarU o url sp) (h1 : iriToUriText o url = .ok u1) :
+    ∃ n u3, uriToIriText o u1 = .ok n ∧ iriToUriText o n = .ok u3 ∧ uriToIriText o u3 = .ok n := by
+  rw [iriToUriText_unfold, g.split] at h1
+  simp only at h1
+  cases hp1 : partsOf o.hostToAscii sp with
+  | error e => rw [hp1] at h1; cases h1
+  | ok p1 =>
+    rw [hp1] at h1
+    simp only [Except.ok.injEq] at h1
+    subst h1
+    -- pass 1: iri_to_uri(url)
+    obtain ⟨b1, ui1, hconv1⟩ := base_of_split g hp1 laws.a_chars
+    obtain ⟨np1, g1⟩ := iri_pass laws b1 (laws.bracket_a _ _ hconv1)
+    -- pass 2: uri_to_iri of that
+    obtain ⟨h2, hu2⟩ := laws.u_of_a _ _ hconv1
+    obtain ⟨s1, r1⟩ := pass_reparse g1 np1 hu2
+    have b2 : PartsBase (reparsed iriConv p1 h2) := base_reparsed b1 (laws.u_chars _ _ hu2) quote_form
+    have ui2 : UriInput (reparsed iriConv p1 h2) := uriInput_after_iri ui1 h2
+    obtain ⟨np2, g2⟩ := uri_pass laws b2 ui2 (laws.bracket_u _ _ hu2) kt
+    -- pass 3: iri_to_uri of the normalised IRI
+    obtain ⟨a3, ha3, hu3⟩ := laws.a_of_u _ _ hu2
+    obtain ⟨s2, r2⟩ := pass_reparse (conv' := o.hostToAscii) (h' := a3) g2 np2 ha3
+    have b3 : PartsBase (reparsed uriConv (reparsed iriConv p1 h2) a3) :=
+      base_reparsed b2 (laws.a_chars _ _ ha3) unquote_form
+    obtain ⟨np3, g3⟩ := iri_pass laws b3 (laws.bracket_a _ _ ha3)
+    -- pass 4: uri_to_iri again
+    obtain ⟨s3, r3⟩ := pass_reparse (conv' := o.hostToUnicode) (h' := h2) g3 np3 hu3
+    refine ⟨urlunsplit (uriConv.apply (reparsed iriConv p1 h2)),
+      urlunsplit (iriConv.apply (reparsed uriConv (reparsed iriConv p1 h2) a3)), ?_, ?_, ?_⟩
+    · rw [uriToIriText_unfold, s1]; simp only [r1]
+    · rw [iriToUriText_unfold, s2]; simp only [r2]
+    · rw [uriToIriText_unfold, s3]; simp only [r3]
+      rw [roundtrip_apply ui1 kt]
+
 end Wz.Url
